@@ -6,6 +6,14 @@ ALL = ["C%02d" % i for i in range(1, 21)]
 
 # property -> (level, design_ref, engine, technique, level text, level note)
 CLAIMED = {
+ "C03": ("fault_enumeration", "DESIGN.md §2 C03", "vp",
+   "exhaustive crash-point enumeration: the dying party (client or server coroutine of the real IPC code) is stopped before each of its wrapped system/libc calls in turn and exactly its descriptors are closed",
+   "For both transports and each session script (connect/disconnect; two request/response round trips; further requests left queued behind flow control; queued events; a raw client delivering only the first j handshake bytes) the run is repeated with the client killed before its K-th wrapped call for every K, with the server killed before its K-th call during each session, and with the server killed K calls after the connect while sendv_recv(-1), event_recv(-1) or recv(500 ms) is waiting on a server that does not answer. A control client stays connected. Oracle: destroyed exactly once (closed first iff created was reported), the control client's round trip still works, /dev/shm listing, descriptor count and active-connection statistic return to the baseline; waiting calls return within a bounded virtual time, later calls fail at once, and after the client's disconnect no shared-memory file of the dead server remains.",
+   "Death at call boundaries of the wrapped set (socket, connect, bind, accept, send/recv(msg), writev, poll, epoll_wait, sem_timedwait, nanosleep, open, unlink, rmdir, mkdtemp, ftruncate, chmod, chown, munmap, shutdown) or while blocked in one of them; one canonical schedule per crash point in quick, one deviation in thorough; an empty directory left by a dead server is not counted as a shared-memory file."),
+ "C04": ("model_checking", "DESIGN.md §2 C04", "vp",
+   "bounded-exhaustive exploration of client scripts, application actions taken at loop-iteration boundaries and inside callbacks, and client/server interleavings of the real IPC server against a per-connection callback automaton (ASan for freed state)",
+   "One client with scripts of up to 3 operations over connect, send, disconnect, die, idle (and two clients with shorter scripts, context-bounded) against a real server on both transports; at every loop-iteration boundary where something changed and inside every created/msg_process/closed callback the application takes one of: nothing, qb_ipcs_disconnect of any known connection, event_send, connection_ref, connection_unref (of references it holds), iterate the connection list, change the rate limit, qb_ipcs_destroy; the closed callback returns non-zero 0-2 times. Oracle: accept -> created -> msg* -> closed+ -> destroyed per connection, closed only if created, destroyed exactly once and never while the application holds a reference, everything destroyed in the end, no touch of freed connection/service state.",
+   "At most 1-2 non-trivial application actions per run; one forked process per execution; a dying client = its descriptors are closed."),
  "C02": ("model_checking", "DESIGN.md §2 C02", "vp",
    "bounded-exhaustive exploration of client scripts, server behaviours and client/server interleavings of the real IPC code (server and client as coroutines in one process, real sockets/epoll/shm, virtual waiting)",
    "A real qb_ipcs server on a real qb_loop and a real qb_ipcc client run as coroutines of one process on both transports with libqb's minimum negotiated message size. Every client script of 2-3 operations over send (five lengths incl. max and max+1), sendv, recv(0), event_recv(0) and poll(fd_get), every msg_process behaviour per call (echo / nothing / back-off), server actions at loop-iteration boundaries (event_send of three lengths, the four rate-limit settings, a burst of 7 events on minimum-size socket buffers) and every interleaving of client operations with server iterations — plus up to 1 preemption at any system call — is executed. Oracle: three reference FIFOs with byte-exact payloads, a failed send has no effect, EMSGSIZE above the maximum, POLLIN on the client's descriptor while events are queued, drain to quiescence with nothing lost, duplicated or extra.",
